@@ -1,5 +1,140 @@
 import OasisModel.Proto
-/- C04/C12 proofs and checkpoints: driver stub (not built yet). -/
+import OasisModel.Mkvs.Proof
+import OasisModel.Mkvs.Chunk
+/-
+Driver for C04/C12 (mode `proof`, executable `om_proof`), used by harness/cmd/proofdrv.
+One operation per line; the model prints its own answer and the harness compares it with what the
+real code did (everything here is deterministic, so no witness form is needed).
+
+Encoding: bytes in hex, `-` = empty byte string; entry lists `e,e,...` with `~` = nil entry,
+`.` = empty list; write logs / contents `k:v,k:v` or `.`.
+
+  new                              fresh empty tree
+  insert K V | remove K            update the model tree
+  root                             -> `root HASH`                      (real SHA-512/256)
+  tget K                           -> `val V` | `absent`               (full tree's answer)
+  verify V ROOT UNTRUSTED ENTRIES  -> `ok WRITELOG` | `err CLASS`      (ProofVerifier.VerifyProofToWriteLog)
+  sub                              -> `ok` | `NOTSUB`                  (last accepted tree ⊑ model tree)
+  get K                            -> `val V` | `absent` | `unresolved` (lookup on the last accepted tree)
+  proofget V SIB K                 -> `proof UNTRUSTED ENTRIES`        (SyncGet positioned at the root)
+  buildincl V HASHES               -> `proof UNTRUSTED ENTRIES`        (ProofBuilder.Build for an arbitrary included set)
+  depth                            -> `depth N`                        (deepest pointer of the tree)
+  chunks SIZE                      -> `chunks N ENTRIES|ENTRIES|...`   (sequential chunker, V0 proofs)
+  pchunks SIZE THREADS             -> `chunks N ENTRIES|...`           (parallel chunker)
+  restore ORDER                    -> `restored COUNT ROOTOK`          (restorer model over the last chunk list)
+-/
 namespace OasisModel.Mkvs.ProofDriver
-def main : IO Unit := IO.eprintln "mode not implemented"
+open OasisModel.Proto OasisModel.Mkvs
+
+def sha := Sha512_256.hash
+
+structure St where
+  trie : Trie := .nil
+  ht : Option HTrie := none          -- cached annotation of `trie`
+  last : Option PT := none
+  chunks : List (List (Option Bytes)) := []
+
+def showEntries (es : List (Option Bytes)) : String :=
+  if es.isEmpty then "." else
+  ",".intercalate (es.map fun e => match e with
+    | none => "~"
+    | some b => showHex b)
+
+def parseEntries (s : String) : Option (List (Option Bytes)) :=
+  if s == "." then some [] else
+  (s.splitOn ",").mapM fun e => if e == "~" then some none else (parseHex e).map some
+
+def showKVs (l : List (Bytes × Bytes)) : String :=
+  if l.isEmpty then "." else ",".intercalate (l.map fun kv => showHex kv.1 ++ ":" ++ showHex kv.2)
+
+def St.htrie (st : St) : St × HTrie :=
+  match st.ht with
+  | some h => (st, h)
+  | none =>
+    let h := annotate sha st.trie
+    ({ st with ht := some h }, h)
+
+def showAns : Option (Option Bytes) → String
+  | none => "unresolved"
+  | some none => "absent"
+  | some (some v) => "val " ++ showHex v
+
+def step (st : St) (line : String) : St × String :=
+  match words line with
+  | ["new"] => ({}, "ok")
+  | ["insert", k, v] =>
+    match parseHex k, parseHex v with
+    | some k, some v => ({ st with trie := st.trie.insert k v, ht := none }, "ok")
+    | _, _ => (st, "ERR parse")
+  | ["remove", k] =>
+    match parseHex k with
+    | some k => ({ st with trie := st.trie.remove k, ht := none }, "ok")
+    | _ => (st, "ERR parse")
+  | ["root"] =>
+    let (st, h) := st.htrie
+    (st, "root " ++ showHex (h.hash (sha [])))
+  | ["tget", k] =>
+    match parseHex k with
+    | some k => (st, showAns (some (st.trie.get k)))
+    | _ => (st, "ERR parse")
+  | ["depth"] =>
+    let (st, h) := st.htrie
+    (st, "depth " ++ toString h.ptrDepth)
+  | ["verify", v, root, untrusted, es] =>
+    match v.toNat?, parseHex root, parseHex untrusted, parseEntries es with
+    | some v, some root, some untrusted, some es =>
+      match verifyProof sha root { v := v, untrusted := untrusted, entries := es } with
+      | .ok t => ({ st with last := some t }, "ok " ++ showKVs t.writeLog)
+      | .error e => ({ st with last := none }, "err " ++ e.toString)
+    | _, _, _, _ => (st, "ERR parse")
+  | ["sub"] =>
+    match st.last with
+    | some t => (st, if subB sha t st.trie then "ok" else "NOTSUB")
+    | none => (st, "ERR no accepted proof")
+  | ["get", k] =>
+    match parseHex k, st.last with
+    | some k, some t => (st, showAns (t.getAux (sha []) k 0))
+    | _, _ => (st, "ERR parse")
+  | ["proofget", v, sib, k] =>
+    match v.toNat?, sib.toNat?, parseHex k with
+    | some v, some sib, some k =>
+      let (st, h) := st.htrie
+      let p := proofGet (sha []) v (sib != 0) k h
+      (st, "proof " ++ showHex p.untrusted ++ " " ++ showEntries p.entries)
+    | _, _, _ => (st, "ERR parse")
+  | ["buildincl", v, hs] =>
+    match v.toNat?, (if hs == "." then some [] else (hs.splitOn ",").mapM parseHex) with
+    | some v, some hs =>
+      let (st, h) := st.htrie
+      let p := build (sha []) v hs h
+      (st, "proof " ++ showHex p.untrusted ++ " " ++ showEntries p.entries)
+    | _, _ => (st, "ERR parse")
+  | ["chunks", size] =>
+    match size.toNat? with
+    | some size =>
+      let (st, h) := st.htrie
+      let cs := seqChunks (sha []) size h
+      ({ st with chunks := cs },
+        "chunks " ++ toString cs.length ++ " " ++ "|".intercalate (cs.map showEntries))
+    | none => (st, "ERR parse")
+  | ["pchunks", size, threads] =>
+    match size.toNat?, threads.toNat? with
+    | some size, some threads =>
+      let (st, h) := st.htrie
+      let cs := parChunks (sha []) size threads h
+      ({ st with chunks := cs },
+        "chunks " ++ toString cs.length ++ " " ++ "|".intercalate (cs.map showEntries))
+    | _, _ => (st, "ERR parse")
+  | ["restore", order] =>
+    match parseNats order with
+    | some order =>
+      let (st, h) := st.htrie
+      let root := h.hash (sha [])
+      let r := restoreRun sha root st.chunks order
+      (st, "restored " ++ toString r.1 ++ " " ++ (if r.2 then "complete" else "incomplete"))
+    | none => (st, "ERR parse")
+  | _ => (st, "ERR unknown op")
+
+def main : IO Unit := loop step {}
+
 end OasisModel.Mkvs.ProofDriver
